@@ -177,7 +177,7 @@ Lemma dict_pop_rel d mp k : dict_rel d mp -> upper_word (pr_seq k) ->
   match dpop (okey (pr_seq k)) mp with
   | Some (t, rest) => exists e, dict_pop seq_keq d k = Ok (e, dict_remove seq_keq d k)
                                 /\ good_ent e /\ tm_of e = Some t /\ dict_rel (dict_remove seq_keq d k) rest
-  | None => dict_pop seq_keq d k = Err (XKeyError (pr_seq k))
+  | None => dict_pop seq_keq d k = Err (XKeyError (KeySeq (pr_seq k)))
   end.
 Proof.
   intros H Hk. unfold dict_pop.
@@ -375,7 +375,7 @@ Lemma walk_loop vector rb b : ent_overhang_start vector = Ok rb -> b = okey (pr_
   | WChain u rest => exists d' asm' next',
       py_while0 (S f) (d, asm, next) (walk_cond vector) walk_body = Ok (d', asm', next')
       /\ dict_rel d' rest /\ pr_seq asm' = List.concat (map mfrag u) /\ pr_kind asm' = KSeqRecord
-  | WMissing o => exists k, py_while0 (S f) (d, asm, next) (walk_cond vector) walk_body = Err (XKeyError k)
+  | WMissing o => exists k, py_while0 (S f) (d, asm, next) (walk_cond vector) walk_body = Err (XKeyError (KeySeq k))
                             /\ okey k = o
   | WFuel => True
   end.
@@ -407,7 +407,7 @@ Proof.
         specialize (IH (dict_remove seq_keq d next) rest asm' (seq_upper r2) (used ++ [t]) Hr Un' La').
         rewrite Kn in IH. apply IH; [|exact Hnf].
         rewrite Pa, Ha, P3, map_app, concat_app. cbn. now rewrite app_nil_r.
-      * assert (Hbody : walk_body (d, asm, next) = Err (XKeyError (pr_seq next))).
+      * assert (Hbody : walk_body (d, asm, next) = Err (XKeyError (KeySeq (pr_seq next)))).
         { unfold walk_body. rewrite Hp. reflexivity. }
         rewrite Hbody. exists (pr_seq next). auto.
 Qed.
@@ -421,7 +421,7 @@ Definition outcome_of (x : exc (pyrecord * list pywarning)) : @Assembly.outcome 
   | Err XInvalidSequence => EInvalid
   | Err XIllegalSite => EInvalid
   | Err (XDuplicateModules a b) => EDuplicate a b
-  | Err (XMissingModule o) => EMissing (okey o)
+  | Err (XMissingModule (KeySeq o)) => EMissing (okey o)
   | Err _ => EInternal
   end.
 
